@@ -26,6 +26,11 @@ if [ -n "$demo" ]; then
     *) demopkg="." ;;
   esac
   [ -f "$dir/PLACEMENT.txt" ] && grep -q "extensions/omniv21/customfuncs" "$dir/PLACEMENT.txt" && demopkg="extensions/omniv21/customfuncs"
+  # an explicit package directory named in the README's placement note wins
+  if [ -f "$dir/README.md" ]; then
+    p=$(grep -i -m1 'demo_test.go. goes in\|placement\|goes into\|place it in\|placed in' "$dir/README.md" | grep -o '`[a-z][A-Za-z0-9_/.]*/`' | tr -d '`' | grep -v '^/tmp' | head -1 | sed 's#/$##')
+    [ -n "$p" ] && [ -d "$W/$p" ] && demopkg="$p"
+  fi
 fi
 rundemo() { # $1 = label
   cp "$demo" "$W/$demopkg/zz_seed_demo_test.go"
